@@ -6,6 +6,7 @@ import (
 	"fmt"
 	"math"
 	"math/big"
+	"reflect"
 	"sort"
 	"strings"
 )
@@ -21,11 +22,75 @@ import (
 // i, otherwise the float64 it parses to) unless KeepLiteral is used.
 func Canon(v any) string {
 	var sb strings.Builder
-	canon(&sb, v)
+	st := canonState{}
+	st.canon(&sb, v)
+	if st.cyclic {
+		return "<CYCLIC-VALUE " + sb.String()[:min(sb.Len(), 200)] + "…>"
+	}
 	return sb.String()
 }
 
-func canon(sb *strings.Builder, v any) {
+// canonState guards the rendering against a value that contains itself (which a defect in
+// the implementation can produce): past depth 4000 the value is checked for a cycle once.
+type canonState struct {
+	depth  int
+	cyclic bool
+}
+
+// Cyclic reports whether a container is reachable from itself.
+func Cyclic(v any) bool {
+	onPath := map[uintptr]bool{}
+	var walk func(v any) bool
+	walk = func(v any) bool {
+		var id uintptr
+		switch v := v.(type) {
+		case []any:
+			if len(v) == 0 {
+				return false
+			}
+			id = reflect.ValueOf(v).Pointer()
+			if onPath[id] {
+				return true
+			}
+			onPath[id] = true
+			for _, x := range v {
+				if walk(x) {
+					return true
+				}
+			}
+		case map[string]any:
+			if len(v) == 0 {
+				return false
+			}
+			id = reflect.ValueOf(v).Pointer()
+			if onPath[id] {
+				return true
+			}
+			onPath[id] = true
+			for _, x := range v {
+				if walk(x) {
+					return true
+				}
+			}
+		default:
+			return false
+		}
+		delete(onPath, id)
+		return false
+	}
+	return walk(v)
+}
+
+func (st *canonState) canon(sb *strings.Builder, v any) {
+	if st.cyclic {
+		return
+	}
+	st.depth++
+	defer func() { st.depth-- }()
+	if st.depth == 4000 && Cyclic(v) {
+		st.cyclic = true
+		return
+	}
 	switch v := v.(type) {
 	case nil:
 		sb.WriteString("n")
@@ -46,14 +111,14 @@ func canon(sb *strings.Builder, v any) {
 			fmt.Fprintf(sb, "d%016x", math.Float64bits(v))
 		}
 	case json.Number:
-		canon(sb, NormalizeNumber(v))
+		st.canon(sb, NormalizeNumber(v))
 	case string:
 		sb.WriteString("s" + hex.EncodeToString([]byte(v)))
 	case []any:
 		sb.WriteString("[")
 		for _, x := range v {
 			sb.WriteString(" ")
-			canon(sb, x)
+			st.canon(sb, x)
 		}
 		sb.WriteString(" ]")
 	case map[string]any:
@@ -65,7 +130,7 @@ func canon(sb *strings.Builder, v any) {
 		sb.WriteString("{")
 		for _, k := range keys {
 			sb.WriteString(" s" + hex.EncodeToString([]byte(k)) + " ")
-			canon(sb, v[k])
+			st.canon(sb, v[k])
 		}
 		sb.WriteString(" }")
 	default:
